@@ -535,7 +535,7 @@ theorem tombClosed_erase {recs : List Rec} {s : Store} (hs : Store.Sorted s) (hT
   · simp only [h, if_false] at hget
     exact hT t ht hget htomb hpos
 
-theorem runDelete_del_cases {mask : Nat → DelOutcome} (hm : ∀ i, mask i ≠ .failCas) (st : CompState)
+theorem runDelete_del_cases (mask : Nat → DelOutcome) (st : CompState)
     (ik : Bytes) {raw : Bytes} (hraw : raw ≠ []) :
     (st.lastFailed = raw ∧ runDelete mask st (.del ik raw) = st) ∨
     (st.lastFailed ≠ raw ∧ (runDelete mask st (.del ik raw)).lastFailed = st.lastFailed ∧
@@ -553,9 +553,9 @@ theorem runDelete_del_cases {mask : Nat → DelOutcome} (hm : ∀ i, mask i ≠ 
     cases hmc : mask st.calls with
     | ok => exact .inl ⟨h, rfl, rfl⟩
     | fail => exact .inr ⟨rfl, rfl⟩
-    | failCas => exact absurd hmc (hm _)
+    | failCas => exact .inr ⟨rfl, rfl⟩
 
-theorem good_del_step {recs : List Rec} {mask : Nat → DelOutcome} (hm : ∀ i, mask i ≠ .failCas)
+theorem good_del_step {recs : List Rec} {mask : Nat → DelOutcome}
     {st : CompState} {k : Bytes} (hk : k ≠ []) (hsorted : Store.Sorted st.store)
     (hT : TombClosed recs st.store) {n : Nat} (hG : Good recs st k n) {ik : Bytes}
     (hik : ∀ t ∈ recs, t.ik = ik ↔ (t.key = k ∧ t.rev = n)) {m : Nat}
@@ -563,7 +563,7 @@ theorem good_del_step {recs : List Rec} {mask : Nat → DelOutcome} (hm : ∀ i,
     Store.Sorted (runDelete mask st (.del ik k)).store ∧
     TombClosed recs (runDelete mask st (.del ik k)).store ∧
     Good recs (runDelete mask st (.del ik k)) k m := by
-  rcases runDelete_del_cases hm st ik hk with ⟨h1, h2⟩ | ⟨h1, h2, h3⟩ | ⟨h1, h2⟩
+  rcases runDelete_del_cases mask st ik hk with ⟨h1, h2⟩ | ⟨h1, h2, h3⟩ | ⟨h1, h2⟩
   · rw [h2]; exact ⟨hsorted, hT, .inl h1⟩
   · have hC : Closed recs st.store k n := by
       rcases hG with h | h
@@ -661,7 +661,7 @@ def CInv (recs : List Rec) (p : Prev) (st : CompState) (rs : List Rec) : Prop :=
 section loop
 variable {recs : List Rec} {mask : Nat → DelOutcome}
 
-theorem phase1 (hm : ∀ i, mask i ≠ .failCas) (hs : SortedRecs recs) (hw : WellKeyed recs)
+theorem phase1 (hs : SortedRecs recs) (hw : WellKeyed recs)
     (hk : ∀ r ∈ recs, Alphabet r.key ∧ r.rev < 2 ^ 64) (hne : ∀ r ∈ recs, r.key ≠ [])
     {done rs : List Rec} {r : Rec} (hsplit : recs = done ++ r :: rs) {R : Nat} {p : Prev}
     (hpb : PrevBefore p (r :: rs)) (hpd : PrevDom R p done) (hp64 : p.rev < 2 ^ 64) (hrR : r.rev ≤ R)
@@ -690,7 +690,7 @@ theorem phase1 (hm : ∀ i, mask i ≠ .failCas) (hs : SortedRecs recs) (hw : We
       have hpk : p.key ≠ [] := hkey ▸ hne r hr
       rw [runDeletes_singleton]
       rw [hkey]
-      exact good_del_step hm hpk hI.1 hI.2.1 hG (ik_iff hw hk hp64)
+      exact good_del_step hpk hI.1 hI.2.1 hG (ik_iff hw hk hp64)
         (fun w hw hwk h0 hlt => (hold w hw (hwk.trans hkey.symm) h0 hlt).2)
     · rename_i hpos
       refine ⟨hI.1, hI.2.1, .inr ?_⟩
@@ -698,7 +698,7 @@ theorem phase1 (hm : ∀ i, mask i ≠ .failCas) (hs : SortedRecs recs) (hw : We
       have := (hold w hw hwk h0 hlt).2
       omega
 
-theorem phase2 (hm : ∀ i, mask i ≠ .failCas) (hw : WellKeyed recs)
+theorem phase2 (hw : WellKeyed recs)
     (hk : ∀ r ∈ recs, Alphabet r.key ∧ r.rev < 2 ^ 64) (hne : ∀ r ∈ recs, r.key ≠ [])
     {r : Rec} (hr : r ∈ recs) {st : CompState}
     (h : Store.Sorted st.store ∧ TombClosed recs st.store ∧ Good recs st r.key r.rev) :
@@ -709,7 +709,7 @@ theorem phase2 (hm : ∀ i, mask i ≠ .failCas) (hw : WellKeyed recs)
   split
   · rw [runDeletes_singleton]
     rw [hw r hr]
-    exact good_del_step hm (hne r hr) h.1 h.2.1 h.2.2 (ik_iff hw hk (hk r hr).2)
+    exact good_del_step (hne r hr) h.1 h.2.1 h.2.2 (ik_iff hw hk (hk r hr).2)
       (fun w _ _ _ hlt => Nat.le_of_lt hlt)
   · exact h
 
@@ -739,7 +739,7 @@ theorem phase3 (hw : WellKeyed recs)
       omega
   · exact h
 
-theorem cinv_step (hm : ∀ i, mask i ≠ .failCas) (hs : SortedRecs recs) (hw : WellKeyed recs)
+theorem cinv_step (hs : SortedRecs recs) (hw : WellKeyed recs)
     (hk : ∀ r ∈ recs, Alphabet r.key ∧ r.rev < 2 ^ 64) (hne : ∀ r ∈ recs, r.key ≠ [])
     {done rs : List Rec} {r : Rec} (hsplit : recs = done ++ r :: rs) {R : Nat} {p : Prev}
     (hpb : PrevBefore p (r :: rs)) (hpd : PrevDom R p done) (hp64 : p.rev < 2 ^ 64)
@@ -750,8 +750,8 @@ theorem cinv_step (hm : ∀ i, mask i ≠ .failCas) (hs : SortedRecs recs) (hw :
   · rw [workerStep_skip p hR]
     exact ⟨hI.1, hI.2.1, fun ⟨x, hx, hxk⟩ => hI.2.2 ⟨x, List.mem_cons_of_mem _ hx, hxk⟩⟩
   · rw [workerStep_fst p hR, workerStep_snd p hR, runDeletes_append, runDeletes_append]
-    have h3 := phase3 (mask := mask) hw hk R hr (phase2 hm hw hk hne hr
-      (phase1 hm hs hw hk hne hsplit hpb hpd hp64 (Nat.le_of_not_lt hR) hI))
+    have h3 := phase3 (mask := mask) hw hk R hr (phase2 (mask := mask) hw hk hne hr
+      (phase1 (mask := mask) hs hw hk hne hsplit hpb hpd hp64 (Nat.le_of_not_lt hR) hI))
     refine ⟨h3.1, h3.2.1, ?_⟩
     split
     · rename_i hidx
@@ -771,7 +771,7 @@ theorem cinv_step (hm : ∀ i, mask i ≠ .failCas) (hs : SortedRecs recs) (hw :
         rw [hp0]; exact .inr (closed_zero _ _ _)
     · intro _; exact h3.2.2
 
-theorem loop_tombClosed (hm : ∀ i, mask i ≠ .failCas) (hs : SortedRecs recs) (hw : WellKeyed recs)
+theorem loop_tombClosed (hs : SortedRecs recs) (hw : WellKeyed recs)
     (hk : ∀ r ∈ recs, Alphabet r.key ∧ r.rev < 2 ^ 64) (hne : ∀ r ∈ recs, r.key ≠ []) (R : Nat)
     (rs done : List Rec) (p : Prev) (st : CompState) (hsplit : recs = done ++ rs)
     (hpb : PrevBefore p rs) (hpd : PrevDom R p done) (hp64 : p.rev < 2 ^ 64)
@@ -789,18 +789,19 @@ theorem loop_tombClosed (hm : ∀ i, mask i ≠ .failCas) (hs : SortedRecs recs)
       rw [hsplit] at hs; exact (List.pairwise_append.1 hs).2.1
     exact ih (done ++ [r]) _ _ (by rw [hsplit]; simp) (prevBefore_step hpb hpw)
       (prevDom_step hs hsplit hpd) (workerStep_rev_lt hp64 (hk r hr).2)
-      (cinv_step hm hs hw hk hne hsplit hpb hpd hp64 hI)
+      (cinv_step hs hw hk hne hsplit hpb hpd hp64 hI)
 
 end loop
 
 /-- Part A, second half: when a deletion marker is removed, every older version of its key is
-removed too (needs: no CAS error on unconditional deletes, no empty raw key). -/
+removed too, under EVERY failure mask — a failed plain delete remembers its raw key whatever the error
+class (needs: no empty raw key). -/
 theorem compact_tombClosed {recs : List Rec} (hs : SortedRecs recs) (hw : WellKeyed recs)
     (hk : ∀ r ∈ recs, Alphabet r.key ∧ r.rev < 2 ^ 64) (hne : ∀ r ∈ recs, r.key ≠ [])
-    (R : Nat) {mask : Nat → DelOutcome} (hm : ∀ i, mask i ≠ .failCas) :
+    (R : Nat) (mask : Nat → DelOutcome) :
     TombClosed recs
       (runDeletes mask { store := encodeStore recs } (workerActs (ccfg R) recs)).store := by
-  apply loop_tombClosed hm hs hw hk hne R recs [] {} _ rfl (prevBefore_init _)
+  apply loop_tombClosed hs hw hk hne R recs [] {} _ rfl (prevBefore_init _)
     (fun _ h => by simp at h) (by decide)
   refine ⟨encodeStore_sorted hs hk, ?_, fun _ => .inr (closed_zero _ _ _)⟩
   intro t ht hget
